@@ -209,3 +209,16 @@ def eval_bool(node, leaf):
     if isinstance(node, ast.Constant):
         return bool(node.value)
     return leaf(node)
+
+
+def parallel_map(fn, items, jobs=None, chunk=None):
+    """fork-based parallel map (the analysis is pure given the source on disk)."""
+    import multiprocessing as mp
+    import os as _os
+    items = list(items)
+    jobs = jobs or min(16, _os.cpu_count() or 1)
+    if len(items) < 8 or jobs <= 1 or _os.environ.get("SA_SERIAL"):
+        return [fn(x) for x in items]
+    ctx = mp.get_context("fork")
+    with ctx.Pool(jobs) as pool:
+        return pool.map(fn, items, chunksize=chunk or max(1, len(items) // (jobs * 4)))
